@@ -1,7 +1,7 @@
 (* C04 — the property, clause by clause.  Only statements; every proof is `exact lemma`. *)
 From Coq Require Import List.
 Import ListNotations.
-From V.C04 Require Import Model Spec Proofs.
+From V.C04 Require Import Model Spec Proofs Totality.
 
 (* The parser's levels ARE the property's table: the level at which parse consumes each binary
    operator token is the row of that operator in Spec.table; assignment is the loosest row, ?: next,
@@ -39,6 +39,17 @@ Theorem paren_irrelevant : forall tight tight' t, plain t = true ->
     parse f (Lvl 0) (print_min tight t) = Ok t [] /\ parse f (Lvl 0) (print_full tight' t) = Ok t [].
 Proof. exact paren_irrelevant_l. Qed.
 Print Assumptions paren_irrelevant.
+
+(* termination: the model's fixed fuel (81 per token + 40) is always enough, for EVERY token list *)
+Theorem parser_total : forall ts, parse (fuel_for ts) (Lvl 0) ts <> Fuel.
+Proof. exact parse_top_total. Qed.
+Print Assumptions parser_total.
+
+(* hence the round trip holds for the top-level parse exactly as checks/C04.py evaluates it: one statement
+   `source ;` with the fixed fuel, no existential *)
+Theorem roundtrip_statement : forall tight t, wfp 0 t = true -> parse_top (pr tight t ++ [TSemi]) = TopOk (strip t).
+Proof. exact roundtrip_top. Qed.
+Print Assumptions roundtrip_statement.
 
 (* more fuel never changes an answer, so "the parse of a token list" is well defined *)
 Theorem parse_fuel_monotone : forall f f' m ts e r, f <= f' -> parse f m ts = Ok e r -> parse f' m ts = Ok e r.
